@@ -273,14 +273,12 @@ func (e *Exec) intrinsic(fn *ssa.Function, args []value) value {
 		return nil
 	case "vFault":
 		// a fault point: the solver chooses whether it fires
-		tag := argStr(args[0])
-		if s, ok := e.nextConcrete("bool"); ok {
-			e.addInput("fault."+tag, "bool", nil, s == "true")
-			return Bool{C: s == "true"}
-		}
-		t := e.fresh("fault."+tag, "Bool")
-		e.addInput("fault."+tag, "bool", t, nil)
-		return Bool{C: e.branch(t)}
+		return Bool{C: e.fault(argStr(args[0]))}
+	case "vFaultsFired":
+		return mkI64(int64(e.faultSeq))
+	}
+	if r, ok := e.promIntrinsic(fn.Name(), args); ok {
+		return r
 	}
 	if e.lenient() {
 		res := fn.Signature.Results()
